@@ -5,13 +5,20 @@ import re
 from .obs import parse_fields, parse_err, split_obs, parse_log, parse_spec, canon
 
 _SFX = re.compile(r'#\d+$')
+_ALLOC = re.compile(r'@\d+$')
 
 
 def strip_growth(tok):
-    return _SFX.sub('', tok)
+    return _SFX.sub('', _ALLOC.sub('', tok))
+
+
+def allocs_of(tok):
+    m = _ALLOC.search(tok)
+    return int(m.group(0)[1:]) if m else None
 
 
 def growth_of(tok):
+    tok = _ALLOC.sub('', tok)
     m = _SFX.search(tok)
     return int(m.group(0)[1:]) if m else None
 
@@ -863,4 +870,104 @@ def message_oracle(case, toks):
             if n not in text:
                 v.failures.append('error message %r does not contain %r' % (text[:120], n))
                 return v
+    return v
+
+
+# ---------------------------------------------------------------- C18 allocation, C19 serialisation
+
+def alloc_oracle(case, toks):
+    """steady state: after a warm-up of four operations, reading records that are no larger than those
+    already seen (the generator makes all records of a file the same shape) allocates nothing, and no
+    growth request is made"""
+    v = Verdict()
+    warm = 4
+    max_batch = {}
+    for idx, tok in enumerate(toks):
+        a = allocs_of(tok)
+        g = growth_of(tok)
+        t = strip_growth(tok)
+        op = case['ops'][idx] if idx < len(case['ops']) else '?'
+        if t in ('PANIC', 'HANG'):
+            v.failures.append('%s at op %d' % (t, idx))
+            return v
+        if t.startswith('S'):
+            m = int(t[1:])
+            seen = max_batch.get(op, 0)
+            if idx >= warm and seen >= m and seen > 0:
+                v.nontrivial = True
+                if a or g is not None:
+                    v.failures.append('op %d (%s): %s allocations / growth %s in steady state (batch of %d, %d seen before)' % (idx, op, a, g, m, seen))
+                    return v
+            max_batch[op] = max(seen, m)
+        elif t.startswith('R:') and idx >= warm:
+            v.nontrivial = True
+            if a or g is not None:
+                v.failures.append('op %d (%s): %s allocations / growth %s in steady state' % (idx, op, a, g))
+                return v
+    return v
+
+
+def json_oracle(case, toks):
+    """every serialised value deserialises to an equal one (the harness compares all records)"""
+    v = Verdict()
+    for idx, tok in enumerate(toks):
+        t = strip_growth(tok)
+        if t.startswith('J:') or t.startswith('Y:'):
+            v.nontrivial = True
+            if not t.endswith(':rt=1'):
+                v.failures.append('op %d: value changed by serialisation round trip' % idx)
+                return v
+        elif t in ('PANIC', 'HANG'):
+            v.failures.append('%s at op %d' % (t, idx))
+            return v
+    return v
+
+
+def iter_oracle(c, o, s):
+    """C20, independent of the model: contracts checked directly on the observation"""
+    v = Verdict()
+    t = c.split(' ')
+    n, steps = int(t[1]), ('' if t[2] == '-' else t[2])
+    if o == 'PANIC':
+        v.failures.append('iterator panicked')
+        return v
+    parts = o.split('|')
+    stp = parts[0].split(',') if parts[0] else []
+    lo, hi = 0, n   # remaining window of line indices [lo, hi)
+    for ch, x in zip(steps, stp):
+        item, ln, hint = x.split(':')
+        if lo < hi:
+            want = lo if ch == 'f' else hi - 1
+            if ch == 'f':
+                lo += 1
+            else:
+                hi -= 1
+            if item != str(want):
+                v.failures.append('step %s yielded %s, expected line %d' % (ch, item, want))
+                return v
+        elif item != '-':
+            v.failures.append('iterator yielded %s after reporting the end' % item)
+            return v
+        rem = hi - lo
+        if int(ln) != rem or hint != '%d.%d' % (rem, rem):
+            v.failures.append('after %d steps len()=%s size_hint=%s but %d items remain' % (len(steps), ln, hint, rem))
+            return v
+    v.nontrivial = len(steps) > 0 and n > 0
+    kv = dict(p.split('=', 1) for p in parts[1:])
+    want_er = ','.join('%d.%d' % (i, i) for i in reversed(range(n)))
+    want_ea = ','.join('%d.%d' % (i, i + 1) for i in reversed(range(max(n - 1, 0))))
+    if kv.get('er') != want_er or kv.get('ea') != want_ea:
+        v.failures.append('enumerate().rev() gave %s / after one step %s' % (kv.get('er'), kv.get('ea')))
+        return v
+    if kv.get('rv') != ','.join(str(i) for i in reversed(range(n))) or kv.get('ct') != str(n) or kv.get('sk') != str(max(n - 1, 0)):
+        v.failures.append('rev/collect/skip disagree with the number of lines')
+        return v
+    for k in ('rs', 'rq'):
+        if 'X' in kv.get(k, '') or 'S' in kv.get(k, ''):
+            v.failures.append('record-set iterator: size hint does not bracket the remaining items or it is not fused: %s' % kv.get(k))
+            return v
+    ow = kv.get('ow', '')
+    if '!' in ow or ow != ('S' * n + 'NNN') * 2:
+        v.failures.append('owned-record iterator: %s' % ow)
+        return v
     return v
